@@ -7,6 +7,7 @@ package main
 import (
 	"context"
 	"fmt"
+	"io"
 	"net"
 	"os"
 	"runtime"
@@ -399,6 +400,7 @@ type caller struct {
 
 	// written by the caller goroutine under world.mu
 	returns  int
+	noResp   bool // completed with neither a response nor an error
 	value    string
 	err      error
 	panicked string
@@ -450,14 +452,17 @@ type world struct {
 	stop    context.CancelFunc
 	callers []*caller
 
-	born         time.Time
-	closed       bool // RPCClient.Close was called
-	closeDone    int32
-	addrClosed   int // number of CloseAddr events so far
-	closeCalls   int32
-	dropped      bool // some stream was dropped by the server
-	droppedKinds map[string]bool
-	notes        []viol // observations made by check() during the current step
+	born          time.Time
+	closed        bool // RPCClient.Close was called
+	closeDone     int32
+	addrClosed    int // number of CloseAddr events so far
+	closeCalls    int32
+	dropped       bool // some stream was dropped by the server
+	droppedKinds  map[string]bool
+	failNextSend  int32 // armed by event NS, consumed by the next SendMsg on a batch stream
+	sendsFailed   int32
+	sendFailArmed bool   // NS happened in this execution (an io.EOF failure has a cause)
+	notes         []viol // observations made by check() during the current step
 }
 
 // maxExecWall: an execution normally takes 1-3 ms. The only wall-clock assumption of the check is
@@ -478,6 +483,19 @@ type noDeadlineConn struct{ net.Conn }
 func (noDeadlineConn) SetDeadline(time.Time) error      { return nil }
 func (noDeadlineConn) SetReadDeadline(time.Time) error  { return nil }
 func (noDeadlineConn) SetWriteDeadline(time.Time) error { return nil }
+
+type failableStream struct {
+	grpc.ClientStream
+	w *world
+}
+
+func (f *failableStream) SendMsg(m any) error {
+	if atomic.CompareAndSwapInt32(&f.w.failNextSend, 1, 0) {
+		atomic.AddInt32(&f.w.sendsFailed, 1)
+		return io.EOF
+	}
+	return f.ClientStream.SendMsg(m)
+}
 
 func newWorld(cfg Config) *world {
 	w := &world{cfg: cfg, srv: &server{}, ctl: &vctl{timers: map[*vtimer]struct{}{}}, born: time.Now()}
@@ -500,6 +518,16 @@ func newWorld(cfg Config) *world {
 				return nil, err
 			}
 			return noDeadlineConn{c}, nil
+		}),
+		// Event NS ("next send fails"): the next SendMsg on a BatchCommands stream of this client returns
+		// io.EOF without writing anything - what gRPC reports when a batch is written to a stream that the
+		// server has already ended but whose failure the recv loop has not processed yet.
+		grpc.WithChainStreamInterceptor(func(ctx context.Context, desc *grpc.StreamDesc, cc *grpc.ClientConn, method string, streamer grpc.Streamer, opts ...grpc.CallOption) (grpc.ClientStream, error) {
+			cs, err := streamer(ctx, desc, cc, method, opts...)
+			if err != nil || !strings.HasSuffix(method, "/BatchCommands") {
+				return cs, err
+			}
+			return &failableStream{ClientStream: cs, w: w}, nil
 		}),
 	))
 	for i := 0; i < cfg.Callers; i++ {
@@ -615,6 +643,7 @@ func (w *world) submit(c *caller, variant int) {
 		c.err = err
 		if err == nil {
 			if resp == nil || resp.Resp == nil {
+				c.noResp = true
 				c.value = "<nil response>"
 			} else if g, ok := resp.Resp.(*kvrpcpb.GetResponse); ok {
 				c.value = string(g.Value)
